@@ -38,6 +38,72 @@ def worker_env(build):
     return env
 
 
+FATAL_SIGNALS = {-11: "SIGSEGV", -6: "SIGABRT", -7: "SIGBUS", -8: "SIGFPE", -4: "SIGILL"}
+
+
+def _fault_frames(text):
+    """Python frames of the thread that was running when the process died (faulthandler dump), innermost first."""
+    if "Fatal Python error" in text:
+        tail = text[text.rindex("Fatal Python error"):]
+    elif "Current thread" in text:
+        tail = text[text.rindex("Current thread"):]
+    else:
+        return []
+    frames = []
+    started = False
+    for line in tail.split("\n"):
+        if line.startswith("Current thread") or line.startswith("Stack (most recent call first)"):
+            started = True
+            continue
+        if started:
+            if line.strip().startswith("File "):
+                frames.append(line.strip())
+            elif frames:
+                break
+    return frames
+
+
+def _crash_failure(args, rc, text):
+    """A worker killed by a fatal signal while evaluating a case: the case is re-run alone in a fresh process. If the process dies again
+    and the innermost Python frame that called into compiled code belongs to the repository under test (not to a third-party library such
+    as spglib), the code under test crashed on a generated input: that is a failure of the property being checked, with the case as replay.
+    Anything else (not reproducible, crash inside a dependency, sanitizer builds handled elsewhere) stays a harness error."""
+    if rc not in FATAL_SIGNALS or args.get("_isolating") or args.get("mode", "run") not in ("run", "replay"):
+        return None
+    from vlib import build as B
+
+    def inner(frames):
+        for fr in frames:
+            if "/vlib/recorder.py" in fr:
+                continue  # the recording wrapper around a compiled kernel: look at its caller
+            if "/vlib/" in fr or "/props/" in fr or "/oracles/" in fr or "/gen/" in fr:
+                return None  # reached harness code without passing through the repository
+            return fr
+        return None
+
+    if args.get("mode") == "replay":
+        spec, text2 = args["spec"], "rc=%s\n%s" % (rc, text)
+    else:
+        cur = args["out"] + ".cur"
+        if not os.path.exists(cur):
+            return None
+        try:
+            with open(cur) as f:
+                spec = json.load(f)
+        except Exception:  # noqa: BLE001
+            return None
+        again = run_worker(dict(args, mode="replay", spec=spec, _isolating=True), 900)
+        text2 = again.get("harness_error") or ""
+    frames = _fault_frames(text2)
+    top = inner(frames)
+    if not any("rc=%d" % k in text2.split("\n", 1)[0] for k in FATAL_SIGNALS):
+        return None  # the case alone does not kill the process: not reproducible
+    if top is None or os.path.realpath(B.REPO) not in os.path.realpath(top.split('"')[1] if '"' in top else top):
+        return None
+    return {"spec": spec, "msg": "the process died with %s while phonopy evaluated this case (reproduced in a fresh process); innermost Python frames:\n  %s"
+            % (FATAL_SIGNALS[rc], "\n  ".join(frames[:6])), "info": None}
+
+
 def run_worker(args, timeout):
     fd, argfile = tempfile.mkstemp(prefix="vw-", suffix=".json", dir=args["tmpdir"])
     os.close(fd)
@@ -63,9 +129,13 @@ def run_worker(args, timeout):
     with open(log) as lf:
         text = lf.read()
     if res is None:
-        res = {"harness_error": "worker produced no result (rc=%s)\n%s" % (rc, text[-3000:]),
+        res = {"harness_error": "worker produced no result (rc=%s)\n%s" % (rc, text[-6000:]),
                "evaluations": 0, "nontrivial": [], "classes": {}, "samples": [], "rejected": 0,
                "excluded_known": {}, "failure": None, "budget_hit": rc == -9, "exhaustive": False, "max_info": {}}
+        crash = _crash_failure(args, rc, text)
+        if crash is not None:
+            res["harness_error"] = None
+            res["failure"] = crash
         if args["build"] == "asan" and ("AddressSanitizer" in text or "runtime error" in text):
             res["harness_error"] = None
             res["failure"] = {"spec": {"shard_args": {k: args[k] for k in ("prop", "sub", "shard", "seed", "tier", "build")}},
